@@ -472,12 +472,10 @@ Lemma limited_result_name : forall x,
   result_name_ok false x = true ->
   result_name_ok true (if max_result_name <? utf8_len x then truncate x max_result_name else x) = true.
 Proof.
-  intros x H. unfold result_name_ok in *.
-  apply andb_true_iff in H. destruct H as [H Hl]. apply andb_true_iff in H. destruct H as [Hne Hc].
+  intros x H. unfold result_name_ok in *. cbn [negb orb] in *. rewrite andb_true_r in H.
+  apply andb_true_iff in H. destruct H as [Hne Hc].
   destruct (max_result_name <? utf8_len x) eqn:E.
-  - assert (Hns : has_nonspace x = true).
-    { apply orb_true_iff in Hl. destruct Hl as [Hl|Hl]; [lia | exact Hl]. }
-    rewrite (truncate_nonempty x max_result_name Hns) by (unfold max_result_name; lia).
+  - rewrite (truncate_nonempty x max_result_name Hne) by (unfold max_result_name; lia).
     rewrite (forallb_truncate result_name_char x max_result_name Hc).
     pose proof (truncate_length x max_result_name). cbn [andb]. lia.
   - rewrite Hne, Hc. pose proof (rune_len_le_utf8_len x). cbn [andb]. lia.
